@@ -6,6 +6,7 @@ import (
 	"fmt"
 	"net"
 	"strconv"
+	"sync"
 	"time"
 
 	apicommon "github.com/enfein/mieru/v3/apis/common"
@@ -85,10 +86,21 @@ type Config struct {
 // the details of the SOCKS5 protocol
 type Server struct {
 	config      *Config
+	usersMu     sync.RWMutex // protects config.Users
 	listener    net.Listener
 	chAccept    chan net.Conn
 	chAcceptErr chan error
 	die         chan struct{}
+}
+
+// SetUsers replaces the registered users of a running server.
+func (s *Server) SetUsers(users map[string]*appctlpb.User) {
+	if users == nil {
+		users = make(map[string]*appctlpb.User)
+	}
+	s.usersMu.Lock()
+	defer s.usersMu.Unlock()
+	s.config.Users = users
 }
 
 // New creates a new Server and potentially returns an error.
